@@ -491,9 +491,10 @@ def xyz_reader(reader_class: ReadAndProcessOnTheFly) -> List[np.ndarray]:
         return trajectory
     for i, line in enumerate(iter(reader_class.file_object.readline, "")):
         spl = line.split()
-        if i == 0 and spl:
+        if i == 0:
             # the line is not fully written, might read wrong nr. of atoms
-            if line[-1] != "\n":
+            # (or only the blanks in front of a right-aligned number)
+            if not spl or line[-1] != "\n":
                 return trajectory
             N_atoms = int(spl[0])
             block_size = N_atoms + 2  # 2 header lines
